@@ -67,3 +67,20 @@ Theorem C08_number_string_plain : forall x, is_finite x = true ->
   str_all plain_char (xpath_number_string x) = true.
 Proof. exact xpath_number_string_plain. Qed.
 Print Assumptions C08_number_string_plain.
+
+(* ---- builder link (Proofs/BuildOps.v): the text [E1 op E2] with an arithmetic
+   operator compiles to the arithmetic node over the compiled operands ---- *)
+From XP Require Import Parse Build Api.
+From XP.Proofs Require Import BuildOps.
+
+Theorem C08_compiled_arithmetic : forall re_ok D has_ns hcode rm rn rr text ns op o a1 a2 q1 q2,
+  parse text ns = Ok (AOp op a1 a2) -> arith_of op = Some o -> operands_build re_ok a1 a2 q1 q2 ->
+  compile re_ok text ns = Ok (QNumeric o q1 q2) /\
+  (forall c m n, eval D has_ns hcode rm rn rr q1 c = Val m -> eval D has_ns hcode rm rn rr q2 c = Val n ->
+     eval D has_ns hcode rm rn rr (QNumeric o q1 q2) c = Val (VNum (arith_op o (as_number D m) (as_number D n)))).
+Proof.
+  intros re_ok D has_ns hcode rm rn rr text ns op o a1 a2 q1 q2 Hp Ho Hb.
+  destruct (compiled_arithmetic re_ok D has_ns hcode rm rn rr text ns op o a1 a2 q1 q2 Hp Ho Hb) as (K1 & K2 & _).
+  split; [exact K1|exact K2].
+Qed.
+Print Assumptions C08_compiled_arithmetic.
